@@ -534,6 +534,10 @@ def generic_dev(loop, *endpoints, expect_closed=False):
     if loop.livelock:
         return 'livelock'
     if loop.errors():
+        import os
+        if os.environ.get('VERIF_DEBUG_ERRORS'):
+            c = loop.errors()[0]
+            return 'loop-exception-handler-called:%s|%r' % (str(c.get('message'))[:200], c.get('exception'))
         return 'loop-exception-handler-called'
     for ep in endpoints:
         for name in ('_sender_task', '_receiver_task'):
